@@ -5,6 +5,7 @@ from harness import res_common as rc
 
 def run(ck):
     rc.run_property(ck, "mask_C02", rc.oracle_C02, fixed=rc.FIXED_HISTORIES)
+    ck.run_fixed({"inject_across_short_lived_contexts": "C02:resource-of-a-dead-context"})
 
 
 def replay(ck, obj):
